@@ -82,8 +82,8 @@ func (s *ManagedServer) Credentials() []UserCredential {
 // GetCredential returns the user credential.
 func (s *ManagedServer) GetCredential(username string) (UserCredential, bool) {
 	s.mu.RLock()
+	defer s.mu.RUnlock()
 	cachedCred := s.cachedCredMap[username]
-	s.mu.RUnlock()
 	if cachedCred == nil {
 		return UserCredential{}, false
 	}
